@@ -53,7 +53,7 @@ class _Columns(ast.NodeTransformer):
     def visit_Subscript(self, n):
         self.generic_visit(n)
         if isinstance(n.slice, ast.Constant) and isinstance(n.slice.value, str) and n.slice.value.isidentifier() and isinstance(n.ctx, ast.Load) \
-                and isinstance(n.value, (ast.Name, ast.Attribute)):
+                and isinstance(n.value, (ast.Name, ast.Attribute, ast.Call)):
             return ast.copy_location(ast.Attribute(value=n.value, attr=n.slice.value, ctx=ast.Load()), n)
         return n
 
@@ -76,6 +76,33 @@ def encoder_facts(ctx, q):
     carry = {k: v for k, v in single_defs(f.node).items() if isinstance(v, (ast.Attribute, ast.Call)) and not any(isinstance(x, ast.Call) and attr_tail(x) in ("merge", "DataFrame") for x in ast.walk(v))}
     elts = [inline(e, carry) if isinstance(e, ast.Name) else e for e in ret[0].value.elts]
     joined_def = [n for n in body if isinstance(n, ast.Assign) and isinstance(n.value, ast.Call) and attr_tail(n.value) == "merge"]
+    if not joined_def:
+        # joined-and-projected at once: ids = rows.merge(table, ..).new_index  ->  read as  joined__m = rows.merge(..) ; ids = joined__m.new_index
+        proj = [n for n in body if isinstance(n, ast.Assign) and len(n.targets) == 1 and isinstance(n.targets[0], ast.Name) and isinstance(n.value, ast.Attribute)
+                and isinstance(n.value.value, ast.Call) and attr_tail(n.value.value) == "merge"]
+        if len(proj) == 1:
+            import copy
+            p_ = proj[0]
+            jn = "joined__m"
+            jd_ = ast.Assign(targets=[ast.Name(id=jn, ctx=ast.Store())], value=p_.value.value, lineno=p_.lineno, col_offset=0)
+            col = ast.Attribute(value=ast.Name(id=jn, ctx=ast.Load()), attr=p_.value.attr, ctx=ast.Load())
+            target = p_.targets[0].id
+
+            class R_(ast.NodeTransformer):
+                def visit_Name(self, n):
+                    if n.id == target and isinstance(n.ctx, ast.Load):
+                        return copy.deepcopy(col)
+                    return n
+            i = body.index(p_)
+            body[i] = jd_
+            for j in range(i + 1, len(body)):
+                body[j] = R_().visit(body[j])
+            ast.fix_missing_locations(f.node)
+            from engine.normalize import renumber
+            renumber(f.node)
+            ret = [n for n in body if isinstance(n, ast.Return)]
+            elts = [inline(e, carry) if isinstance(e, ast.Name) else e for e in ret[0].value.elts]
+            joined_def = [jd_]
     ctx.need(len(joined_def) == 1, f"{f.site()}: merge not found")
     return f, body, ret[0], elts, joined_def[0]
 
@@ -373,6 +400,21 @@ def r4(ctx):
                                 x.keywords = []
                     is_pred = dose_table(pred) is not None or U(pred).endswith("is_control")
                     found.append((U(n), N.key(e3) == want and is_pred, h.site()))
+        # the same rank counted from the other side: (number of non-controls up to and including the row) - 1
+        for st in stmts:
+            for n in ast.walk(st):
+                if isinstance(n, ast.BinOp) and isinstance(n.op, ast.Sub) and U(n.right) == "1":
+                    l_ = inline(n.left, env)
+                    arg_ = None
+                    if isinstance(l_, ast.Call) and call_name(l_) == "np.cumsum" and l_.args:
+                        arg_ = l_.args[0]
+                    elif isinstance(l_, ast.Call) and attr_tail(l_) == "cumsum" and not (call_name(l_) or "").startswith("np."):
+                        arg_ = l_.func.value
+                    if arg_ is not None:
+                        a_ = _unwrap_array(inline(arg_, env))
+                        if isinstance(a_, ast.UnaryOp) and isinstance(a_.op, ast.Invert):
+                            p_ = _unwrap_array(inline(a_.operand, env))
+                            found.append((U(n), dose_table(p_) is not None, h.site()))
     if not found:
         raise AnalysisError(f"{f.site()}: no `index - cumsum(...)` renumbering found in the encoder or its helpers - density of the ids is undecided")
     ctx.check("R4", f"{f.site()}::rank-formula", any(x[1] for x in found), "new_index = position - cumsum(is_control)  (rank among non-controls)",
@@ -677,6 +719,20 @@ def r6(ctx):
             if isinstance(seq, (ast.ListComp, ast.GeneratorExp)) and len(seq.generators) == 1 and not seq.generators[0].ifs and isinstance(seq.generators[0].target, ast.Name):
                 g = seq.generators[0]
                 v = g.target.id
+                # the same sequence walked backwards lists the blocks in the opposite order
+                rev = None
+                if isinstance(g.iter, ast.Call) and call_name(g.iter) == "reversed" and len(g.iter.args) == 1:
+                    rev = g.iter.args[0]
+                elif isinstance(g.iter, ast.Subscript) and T(g.iter.slice) == "::-1":
+                    rev = g.iter.value
+                if rev is not None:
+                    import copy
+                    seq2 = copy.deepcopy(seq)
+                    seq2.generators[0].iter = rev
+                    e2 = copy.deepcopy(e)
+                    e2.args[0] = seq2
+                    o = flat_order(e2, src)
+                    return None if o is None else o + "-reversed"
                 m = mat_layout(g.iter, src)
                 if m is not None and T(seq.elt) == v:
                     return "row" if m == "N" else "col"
@@ -707,7 +763,7 @@ def r6(ctx):
                     cols = call_name(x) == "np.column_stack" or (ax is not None and T(ax) in ("1", "-1"))
                     return "N" if cols else "A"
                 return None
-            if isinstance(x, ast.Call) and isinstance(x.func, ast.Attribute) and x.func.attr == "reshape" and T(x.func.value) == v:
+            if isinstance(x, ast.Call) and isinstance(x.func, ast.Attribute) and x.func.attr == "reshape" and T(_unwrap_array(x.func.value)) == v:
                 dims = x.args[0].elts if len(x.args) == 1 and isinstance(x.args[0], ast.Tuple) else x.args
                 order = kwargs(x).get("order")
                 f_order = order is not None and T(order) in ("'F'", '"F"')
